@@ -14,7 +14,7 @@
 (* history so that every call ORDER is a distinct behaviour that TLC       *)
 (* visits (and emits for replay).                                          *)
 (***************************************************************************)
-EXTENDS Bytes, TLC, Json
+EXTENDS IterCore, TLC, Json
 
 CONSTANTS MinLen, MaxLen,  \* haystack lengths MinLen..MaxLen, all contents
           ExtraNones,    \* how many None results are observed before a behaviour ends
@@ -36,20 +36,20 @@ Rec(op, r, l, h) == [op |-> op, ret |-> r, rem |-> CountIn(hay, M, l, h), up |->
 
 CallNext ==
   /\ nones < ExtraNones
-  /\ LET r == FirstIn(hay, M, lo, hi) IN
-     /\ lo' = IF r >= 0 THEN r + 1 ELSE lo
-     /\ hi' = hi
-     /\ nones' = IF r >= 0 THEN nones ELSE nones + 1
-     /\ hist' = Append(hist, Rec("next", r, IF r >= 0 THEN r + 1 ELSE lo, hi))
+  /\ LET x == IT_Next(hay, M, [lo |-> lo, hi |-> hi]) IN
+     /\ lo' = x.w.lo
+     /\ hi' = x.w.hi
+     /\ nones' = IF x.ret >= 0 THEN nones ELSE nones + 1
+     /\ hist' = Append(hist, Rec("next", x.ret, x.w.lo, x.w.hi))
   /\ UNCHANGED hay
 
 CallNextBack ==
   /\ nones < ExtraNones
-  /\ LET r == LastIn(hay, M, lo, hi) IN
-     /\ hi' = IF r >= 0 THEN r ELSE hi
-     /\ lo' = lo
-     /\ nones' = IF r >= 0 THEN nones ELSE nones + 1
-     /\ hist' = Append(hist, Rec("next_back", r, lo, IF r >= 0 THEN r ELSE hi))
+  /\ LET x == IT_NextBack(hay, M, [lo |-> lo, hi |-> hi]) IN
+     /\ hi' = x.w.hi
+     /\ lo' = x.w.lo
+     /\ nones' = IF x.ret >= 0 THEN nones ELSE nones + 1
+     /\ hist' = Append(hist, Rec("next_back", x.ret, x.w.lo, x.w.hi))
   /\ UNCHANGED hay
 
 Next == CallNext \/ CallNextBack
